@@ -268,7 +268,11 @@ impl Report {
             "violations": g.unlisted,
         });
         if !self.replay_mode {
-            let dir = verif_root().join("evidence");
+            // Runs against deliberately broken trees (mutants, seeded breaks) write their
+            // evidence elsewhere so that /verif/evidence always describes the unchanged tree.
+            let dir = std::env::var_os("VERIF_EVIDENCE_DIR")
+                .map(std::path::PathBuf::from)
+                .unwrap_or_else(|| verif_root().join("evidence"));
             let _ = std::fs::create_dir_all(&dir);
             let path = dir.join(format!("{}.json", self.id));
             std::fs::write(&path, serde_json::to_string_pretty(&ev).unwrap())
